@@ -816,6 +816,22 @@ let rec run toks =
         | [] -> ev_put r fn (List.map2 (fun x y -> ev_scalar2 o x y) ta tb); show_ev r
         | [e] -> raise (Err (everr_name e))
         | _ -> raise Unsupported))
+  | "unary" :: r :: fn :: "copy" :: a :: _ when Hashtbl.mem idxsets a ->
+    (* COPY of an index set: the function is the rank of members, +infinity elsewhere *)
+    Hashtbl.remove edges r; Hashtbl.remove evtabs r;
+    let fr = get_forest fn in
+    let (fan, ta) = Hashtbl.find idxsets a in
+    let fa = get_forest fan in
+    if not (same_shape fa fr) || fa.sizes <> fr.sizes then raise Unsupported;
+    let l = nat_of_int (nlev fa) in
+    let tb = List.map (function Some i -> Some (z_of_int (int_of_nat i)) | None -> None)
+        (index_table (szf fa) fa.rule l ta) in
+    (match fr.lab with
+     | EVP -> ev_put r fn tb; show_ev r
+     | MT ->
+       let t = dd_of_table fr (List.map (conv_from_ev (fr.range = RBool) (z_of_int (scale fr))) tb) in
+       set_edge r fn t; show r
+     | _ -> raise Unsupported)
   | "unary" :: r :: fn :: "copy" :: a :: _
     when Hashtbl.mem evtabs a || (try (get_forest fn).lab = EVP with _ -> false) ->
     (* COPY with an EV+ source or target, at table level *)
@@ -1001,7 +1017,7 @@ let rec run toks =
         (match accept st.live (Req (nat_of_int id, z_of_int n, z_of_int h, z_of_int n)) with
          | Some s' -> st.live <- s'
          | None -> if h <> 0 then emit "mm req REPLICA-REJECTED-BY-MONITOR");
-        emit (Printf.sprintf "mm req id=%d addr=%d got=%d" id h n)
+        emit (Printf.sprintf "mm req id=%d addr=%d got=%d addressable=1" id h n)
     end else begin
       (* acceptance: validate the implementation's response *)
       match Hashtbl.find_opt impl_obs !line with
@@ -1012,7 +1028,8 @@ let rec run toks =
            let a = int_of_string a and g = int_of_string g in
            st.sizes <- (id, (a, g)) :: st.sizes;
            (match accept st.live (Req (nat_of_int id, z_of_int n, z_of_int a, z_of_int g)) with
-            | Some s' -> st.live <- s'; emit obs
+            | Some s' -> st.live <- s';
+              emit (Printf.sprintf "mm req id=%d addr=%d got=%d addressable=1" id a g)
             | None -> emit (Printf.sprintf "mm req REJECTED-BY-MONITOR id=%d n=%d addr=%d got=%d (overlaps a live chunk, too small, or null)" id n a g))
          | _ -> ())
     end
@@ -1218,6 +1235,11 @@ let rec run toks =
     emit (Stdlib.String.concat " " ("getelem" :: parts))
   | "show" :: a :: _ when Hashtbl.mem evtabs a -> show_ev a
   | "show" :: a :: _ -> show a
+  | "eq" :: a :: b :: _ when Hashtbl.mem evtabs a && Hashtbl.mem evtabs b ->
+    (* edge-valued forests: by canonicity (EvP.ev_canon) two edges of one forest are
+       equal exactly when their functions are *)
+    let (fa, ta) = Hashtbl.find evtabs a and (fb, tb) = Hashtbl.find evtabs b in
+    emit ("eq " ^ (if fa = fb && ta = tb then "1" else "0"))
   | "eq" :: a :: b :: _ ->
     let (fa, ta) = get_edge a and (fb, tb) = get_edge b in
     emit ("eq " ^ (if fa = fb && dd_eqb ta tb then "1" else "0"))
